@@ -53,6 +53,14 @@ example : exCtx.noSpinCheck = true := by decide +kernel
 example : exMachine.endFailOK {} = true := by decide +kernel
 /-- hypothesis of `C10_end_fail_then_empty_chunk` (… exactly the index the empty-chunk test names) -/
 example : exMachine.endFailExact {} = true := by decide +kernel
+/-- hypotheses of `C10_fail_is_final` (FAIL leaves `failTarget`, everything else a state of the table; the
+    empty-chunk test names `failTarget`), the start state is good, and a session that fails: `b`, then an
+    empty chunk, `a`, `end()` — every call after the FAIL answers FAIL -/
+example : exMachine.failClosed {} = true := by decide +kernel
+example : ({ exCtx with ro := { zeroLen := true, eof := true } } : RtCtx).emptyFails exMachine.failTarget = true := by decide +kernel
+example : exMachine.inTable (exCtx.start {}).1.state = true := by decide +kernel
+example : (({ exCtx with ro := { zeroLen := true, eof := true } } : RtCtx).session {} [.feed [98] 0, .feed [] 0, .feed [97] 0, .endInput]).2
+    = [("OK", 0), ("FAIL", 0), ("FAIL", 0), ("FAIL", 0), ("FAIL", 0)] := by decide +kernel
 /-- hypothesis of C17 (no data-pattern arm is taken on end-of-input) -/
 example : exMachine.endArmsOK = true := by decide +kernel
 
